@@ -7,13 +7,17 @@ PROP = "C18"
 COQ_IMPORTS = "From SV Require Import Model.Crc32 Model.Seglog."
 READY = True
 XCHECK = 12
-RULE = ("a case is ONE history `h <H> <size> <start> op ; op ; ...` run on a real segment: 320 (thorough 2400) histories of 20..90 (..160) generated operations "
+RULE = ("a case is ONE history `h <H> <size> <start> op ; op ; ...` run on a real segment: first 4 (thorough 16) fixed-shape `window-tail` histories (segment > 64 KiB; a record "
+        "straddling a 64 KiB read-ahead window boundary is read sequentially / by iteration so the buffer grows past the window end; replace_header on a record inside that <= 4 KiB cached tail "
+        "through the SAME reader; then Sequential read, iteration, Random read of it through that reader, a second replace + iteration, and a read through a reader opened afterwards; H in {1,8,16,32}, one or two windows, "
+        "with/without a compressed target record), then 316 (thorough 2400) histories of 20..90 (..160) generated operations "
         "+ a closing sweep (sync; every reader reads the last live records with both hints and iterates from the start; raw file digest). "
         "Ops: append 30% (sizes 0..60, 120..320 around the compression threshold, in 1/8 of the histories also 2040..70000 around the 2048/4096/16K/64K buffers), "
         "sync 12%, flush_writer 4%, set_len 7% (to a record start at or above everything a reader can have cached; in 1/5 of the histories anywhere below; in 1/6 also mid-record), "
         "compression toggle 4%, Reader::open 4%, try_clone 3%, read_record 22% (2/3 Sequential; offsets: live record starts 65%, old/other boundaries 20%, +-4 around, random, u64::MAX-k), "
         "iterate 6%, replace_header 5% (through a reader that is the only one with a filled read-ahead, in 1/7 of the histories through any), file digest 3%. "
         "H in {0,1,8,16,32}, segment sizes {300,1000,5000,70000,140000,400000} (small ones exercise SegmentFull), start in {0,16,64}. "
+        "Known-finding classes are assigned only when the failing bytes meet a range of THAT reader's cache made stale by a set_len below it or by a replace_header through a DIFFERENT reader; a stale read through the reader that did the replace is a violation. "
         "non-trivial = histories with at least one successful read after a later sync/set_len through a reader opened earlier; distinct = distinct case strings.")
 ASSUMPTIONS = ["Model/Seglog.v (writer with std's BufWriter made explicit, ReadAheadBuf, replace_header) is hand-written from crates/seglog/src/{write,read}.rs after the fix commits; tie = this differential run, which also compares the raw file bytes",
                "operations are atomic and sequential: the instant inside set_len where flushed is raised by sync() before being lowered is not observable in the model; real reader threads could observe it",
@@ -41,17 +45,26 @@ def monitor(c, o):
     woff = flushed = start
     comp = False
     live = {}            # offset -> dict(hdr, data, compressed, total)
-    readers = []         # per reader: highest offset it may have cached (flushed at its last sequential read), taint
+    # per reader: `hi` = highest offset it may have cached (flushed at its last sequential read / iteration);
+    # `stale` = byte ranges [a, b) of ITS cache that may hold outdated bytes, each with the cause:
+    #   'set_len'  : the writer truncated to a < hi (the reader cached [.., hi) before)
+    #   'replace'  : ANOTHER reader replaced a header inside what this reader may have cached
+    # a replace through the reader itself never adds a range: its own cache must be invalidated by the code.
+    readers = []
     def expect_read(off):
         r = live.get(off)
         if r is None: return None
         if flushed - off < 8: return "oob:8"
         if off + r["total"] > flushed: return f"oob:{r['total']}"
         return rec_str(r["hdr"], r["data"], r["compressed"], r["total"])
-    def known(rd, what):
-        tn = readers[rd]["taint"]
-        if tn == "set_len": return ("stale-cache-after-set_len", what + " [reader's read-ahead was filled before a set_len below it]")
-        if tn == "replace": return ("stale-cache-after-foreign-replace_header", what + " [reader's read-ahead was filled before another reader replaced a header in it]")
+    def known(rd, lo, hi_, what):
+        """the failure concerns bytes [lo, hi_) read through reader rd: known only if that range meets a stale range of rd"""
+        for (a, b, cause, by) in readers[rd]["stale"]:
+            if a < hi_ and lo < b:
+                if cause == "set_len":
+                    return ("stale-cache-after-set_len", what + f" [reader {rd} cached up to {b} before set_len({a})]")
+                if cause == "replace" and by != rd:
+                    return ("stale-cache-after-foreign-replace_header", what + f" [reader {rd} had [{a},{b}) cached when reader {by} replaced the header]")
         return None
     for i, (op, out) in enumerate(zip(ops, outs)):
         k = op[0]
@@ -72,16 +85,16 @@ def monitor(c, o):
             if o_ < woff:
                 for off in [x for x in live if x + live[x]["total"] > o_]: del live[off]
                 for r in readers:
-                    if r["hi"] > o_ and r["taint"] is None: r["taint"] = "set_len"
+                    if r["hi"] > o_: r["stale"].append((o_, r["hi"], "set_len", None))
                 woff = flushed = o_
         elif k == "c": comp = op[1] == "1"
         elif k == "n":
             if out != f"n={len(readers)}": return ("harness", f"op #{i}: {out}")
-            readers.append(dict(hi=0, taint=None))
+            readers.append(dict(hi=0, stale=[]))
         elif k == "k":
             if int(op[1]) < len(readers):
                 if out != f"k={len(readers)}": return ("harness", f"op #{i}: {out}")
-                readers.append(dict(hi=0, taint=None))
+                readers.append(dict(hi=0, stale=[]))
         elif k == "r":
             rd, off, seq = int(op[1]), int(op[2]), op[3] == "1"
             if rd >= len(readers): continue
@@ -93,7 +106,8 @@ def monitor(c, o):
             elif want is None and got.startswith("ok:") and off + int(got.rsplit(":", 1)[1]) > flushed:
                 bad = f"op #{i}: read_record({off}) returned {got[:60]} which extends beyond flushed={flushed}"
             if bad:
-                kn = known(rd, bad) if seq else None
+                ln = live[off]["total"] if off in live else 8
+                kn = known(rd, off, off + ln, bad) if seq else None
                 return kn or ("stale-or-wrong-read", bad)
             if seq: readers[rd]["hi"] = max(readers[rd]["hi"], flushed)
         elif k == "i":
@@ -113,7 +127,14 @@ def monitor(c, o):
                 for g in got:
                     o2, _, rs = g.partition("@")
                     if int(o2) + int(rs.rsplit(":", 1)[1]) > flushed: bad = f"op #{i}: iteration returned a record at {o2} that extends beyond flushed={flushed}"; break
-            if bad: return known(rd, bad) or ("stale-or-wrong-iteration", bad)
+            if bad:
+                # where the iteration first departs from the flushed log
+                k2 = 0
+                while k2 < len(exp) and k2 < len(got) and got[k2] == exp[k2]: k2 += 1
+                p0 = int(exp[k2].split("@")[0]) if k2 < len(exp) else cur
+                if off not in live: p0 = off
+                ln = live[p0]["total"] if p0 in live else 8
+                return known(rd, p0, p0 + ln, bad) or ("stale-or-wrong-iteration", bad)
             readers[rd]["hi"] = max(readers[rd]["hi"], flushed)
         elif k == "p":
             rd, off = int(op[1]), int(op[2])
@@ -126,7 +147,7 @@ def monitor(c, o):
                 if out != "p=ok": return ("replace-result", f"op #{i}: replace_header at live flushed record {off} returned {out}")
                 live[off]["hdr"] = hexof(op[3])
                 for j, r in enumerate(readers):
-                    if j != rd and r["hi"] > off + 4 and r["taint"] is None: r["taint"] = "replace"
+                    if j != rd and r["hi"] > off + 4: r["stale"].append((off, off + live[off]["total"], "replace", rd))
             elif out != "p=" + want: return ("replace-result", f"op #{i}: replace_header at {off} returned {out}, expected {want}")
     return None
 
